@@ -35,6 +35,24 @@ Scenario(ws) ==
   IN puts \o (IF Refused(ws) THEN << ClmCreate(OutName, paths, "refuse") >>
               ELSE << ClmCreate(OutName, paths, "ok"), FileEq(OutName, ClmLayout(s)), ClmOpen(OutName, listing) >> \o per
                    \o << VolMemberErr(Len(s)) >>)
+\* ---- inputs that are not WAV files: a good file next to one that lacks one thing a WAV file must have -------------------------------
+FmtChunk == TagFmt \o LE32(16) \o Fmt16(F1)
+DataChunk == TagData \o LE32(4) \o <<1, 2, 3, 4>>
+Riff(tag1, tag2, delta, body) == tag1 \o LE32(4 + Len(body) + delta) \o tag2 \o body
+NotWav == << Riff(<<82,73,70,88>>, TagWAVE, 0, FmtChunk \o DataChunk),          \* "RIFX"
+             Riff(TagRIFF, <<87,65,86,88>>, 0, FmtChunk \o DataChunk),          \* "WAVX"
+             Riff(TagRIFF, TagWAVE, 1, FmtChunk \o DataChunk),                  \* the RIFF size is not the file length - 8
+             Riff(TagRIFF, TagWAVE, 0, DataChunk),                               \* no format chunk
+             Riff(TagRIFF, TagWAVE, 0, FmtChunk),                                \* no data chunk
+             <<>>,                                                               \* an empty file
+             <<104, 101, 108, 108, 111, 32, 119, 111, 114, 108, 100>>,           \* text
+             Riff(TagRIFF, TagWAVE, 0, FmtChunk \o DataChunk) >>                 \* (control: this one IS a WAV file)
+NotWavScenario(v, first) ==
+  LET good == <<119,47,116,49>> \o Ext   bad == <<119,47,84,50>> \o Ext              \* w/t1.wav, w/T2.wav
+      w == Wav(1, 6, 1, 16, F1, 1)
+      isWav == v = Len(NotWav)
+  IN << Put(good, WavImage(w)), Put(bad, << Lit(NotWav[v]) >>),
+        ClmCreate(OutName, IF first THEN <<bad, good>> ELSE <<good, bad>>, IF isWav THEN "ok" ELSE "refuse") >>
 Distinct(ixs) == \A i, j \in DOMAIN ixs : i # j => ixs[i] # ixs[j]
 \* ---- one TLC state per WAV set: (name indices, data lengths, layout rotation, format variant), or a seeded random set ------------
 \* layout index rotates per member; fmt length alternates; format differs on the last member in variant 2
@@ -53,15 +71,16 @@ RWav(r, i) == [name |-> RName(r, i), fmt |-> IF Below(Seed * 211 + r, 5, i, 12) 
                pre |-> RExtras(r, i, 1), mid |-> RExtras(r, i, 2), post |-> RExtras(r, i, 3)]
 RandSet(r) == [i \in 1..Below(Seed * 211 + r, 1, 0, 6) |-> RWav(r, i)]
 Init == \/ /\ kind = "rand" /\ par \in {<<r>> : r \in 1..NRand}
+        \/ /\ kind = "notwav" /\ par \in {<<v, f>> : v \in 1..Len(NotWav), f \in BOOLEAN}
         \/ /\ kind = "set"
            /\ \E n \in 0..MaxFiles : \E nis \in Seqs(1..Len(Names), n) : \E dls \in Seqs(DataLens, n) : \E li \in 1..Len(Layouts) : \E variant \in {1, 2} :
                 Distinct(nis) /\ (n > 1 => \A i \in 1..n : nis[i] <= NPlain) /\ par = <<nis, dls, li, variant>>
 Next == UNCHANGED vars
 Spec == Init /\ [][Next]_vars
-Set == IF kind = "rand" THEN RandSet(par[1]) ELSE WavSet(par[1], par[2], par[3], par[4])
+Set == IF kind = "rand" THEN RandSet(par[1]) ELSE IF kind = "notwav" THEN <<>> ELSE WavSet(par[1], par[2], par[3], par[4])
 \* model-level laws of the layout: the file ends with the last member's data; offsets accumulate from the end of the index
 EndsWithLast == ~Refused(Set) => EndsWithLastData(SortCI(Set))
 OffsetsAccumulate == ~Refused(Set) => LET s == SortCI(Set) IN \A i \in 1..Len(s) : DataOff(s, i) = 60 + 16 * Len(s) + SumLens(s, i - 1)
 NamesAscending == ~Refused(Set) => LET s == SortCI(Set) IN \A i \in 1..(Len(s) - 1) : Less(s[i].name, s[i + 1].name)
-Export == PrintT("S|" \o ToJson([id |-> <<kind, par>>, steps |-> Scenario(Set)]))
+Export == PrintT("S|" \o ToJson([id |-> <<kind, par>>, steps |-> IF kind = "notwav" THEN NotWavScenario(par[1], par[2]) ELSE Scenario(Set)]))
 ====
